@@ -1,7 +1,7 @@
 #!/bin/bash
 # usage: verify_seed.sh Cxx  -- confirms in the scratch worktree /tmp/seed_Cxx that the seeded change (a) passes the existing suite,
 # (b) makes the demonstration fail, (c) the demonstration passes without it.  Writes /tmp/seed_out/Cxx/verified.json
-C="$1"; W=/tmp/seed_$C; O=/tmp/seed_out/$C; T=/tmp/seed_${C}_vtarget
+C="$1"; W=${SEEDW:-/tmp/seed_}$C; O=${SEEDO:-/tmp/seed_out}/$C; T=${W}_vtarget
 lc=$(echo $C | tr 'A-Z' 'a-z')
 cd $W || exit 2
 git checkout -q -- src 2>/dev/null
